@@ -147,10 +147,17 @@ func (r *Run) WantSample() bool {
 func (r *Run) Violation(sig, desc string, witness any) {
 	r.mu.Lock()
 	r.violCount[sig]++
+	first := r.violCount[sig] == 1
 	if r.violCount[sig] <= 3 && len(r.violations) < 60 {
 		r.violations = append(r.violations, Violation{Sig: sig, Desc: desc, Witness: witness})
 	}
 	r.mu.Unlock()
+	if first {
+		// an interim summary (complete: false): what was seen so far survives a child that is cut
+		// short afterwards (a workload slowed down so much by the violation that it hits the driver's
+		// watchdog, or one that deadlocks later)
+		r.write(false)
+	}
 }
 
 // Violations returns the number of violations so far.
@@ -236,14 +243,19 @@ type summary struct {
 
 // Finish writes the summary to $VERIF_OUT (or stdout when unset). A child that dies before Finish
 // leaves no summary, which the driver treats as a crash.
-func (r *Run) Finish() {
+func (r *Run) Finish() { r.write(true) }
+
+func (r *Run) write(complete bool) {
 	r.mu.Lock()
 	defer r.mu.Unlock()
+	if !complete && os.Getenv("VERIF_OUT") == "" {
+		return
+	}
 	s := summary{
 		Property: r.Property, Part: r.Part, Seed: r.Seed, Tier: r.Tier, Shard: r.Shard, Shards: r.Shards,
 		Evaluations: r.evals, Samples: r.samples, Violations: r.violations, ViolCount: r.violCount,
 		Inconcl: r.inconcl, Counters: r.counters, Notes: r.notes, WallS: time.Since(r.start).Seconds(),
-		Exhaustive: r.exhaustive, Complete: true, Sets: map[string][]string{},
+		Exhaustive: r.exhaustive, Complete: complete, Sets: map[string][]string{},
 	}
 	for k := range r.distinct {
 		s.Distinct = append(s.Distinct, k)
